@@ -69,6 +69,7 @@ func generate(rng *rand.Rand, prop, tier string) *Scenario {
 		c.MinPool = rng.IntN(c.MaxPool + 1)
 	}
 	c.GCPeriodS = oneOf(rng, 30, 120, 120)
+	c.CacheSyncMs = oneOf(rng, 0, 0, 500, 2000, 20000, 100000)
 	c.HeartbeatS = oneOf(rng, 20, 60, 60, 300)
 	npre := rng.IntN(c.Adapters)
 	for i := 0; i < npre; i++ {
